@@ -160,7 +160,8 @@ func c04Scenario(c *Ctx, idx int, r *Rng) (mlines, mimpl, mcase []string) {
 			if r.Chance(25) && gen > 0 {
 				continue
 			}
-			b := r.Bytes(Pick(r, []int{1, 30, 1023, 1024, 1500, 5000}))
+			// 128: an object exactly as long as its own pointer file (3-digit size, no extensions)
+			b := r.Bytes(Pick(r, []int{1, 30, 128, 128, 127, 129, 1023, 1024, 1500, 5000}))
 			if nme == "dup.bin" && shared != nil {
 				b = shared
 			}
@@ -192,7 +193,7 @@ func c04Scenario(c *Ctx, idx int, r *Rng) (mlines, mimpl, mcase []string) {
 	}
 	o.git("push", "-q", "origin", "--tags")
 	// ---- the clone under test
-	cmdKind := Pick(r, []string{"fetch", "fetch", "pull", "pull", "pull", "checkout", "checkout", "clone-smudge", "git-checkout-smudge", "fetch-all"})
+	cmdKind := Pick(r, []string{"fetch", "fetch", "pull", "pull", "pull", "checkout", "checkout", "clone-smudge", "git-checkout-smudge", "git-checkout-smudge", "git-checkout-smudge", "fetch-all"})
 	ref := Pick(r, []string{"master", "master", "v0", "side"})
 	if ref == "side" {
 		if _, code := o.git("rev-parse", "--verify", "-q", "side"); code != 0 {
@@ -300,7 +301,11 @@ func c04Scenario(c *Ctx, idx int, r *Rng) (mlines, mimpl, mcase []string) {
 			continue
 		}
 		seenOid[f.oid] = true
-		switch r.Intn(5) {
+		k := r.Intn(5)
+		if cmdKind == "git-checkout-smudge" {
+			k = r.Intn(3) // the smudge filter with the object already at hand: the case its skip / exclude logic must still decide
+		}
+		switch k {
 		case 0:
 			p := cl.objectPath(f.oid)
 			os.MkdirAll(filepath.Dir(p), 0o755)
@@ -438,6 +443,7 @@ func c04Scenario(c *Ctx, idx int, r *Rng) (mlines, mimpl, mcase []string) {
 	var cout string
 	var ccode int
 	changedSinceV0 := map[string]bool{}
+	skipBack := false
 	if cmdKind == "git-checkout-smudge" {
 		dout, _ := cl.git("diff", "--name-only", "v0", ref)
 		for _, l := range strings.Split(dout, "\n") {
@@ -445,8 +451,16 @@ func c04Scenario(c *Ctx, idx int, r *Rng) (mlines, mimpl, mcase []string) {
 		}
 		// move to v0 with skip-smudge, then back to <ref> with smudging: the files changed between the two are smudged
 		runIn(cl.dir, append(append([]string(nil), cl.env...), skipEnv...), "git", "checkout", "-q", "v0")
-		cout, ccode = cl.git("checkout", "-q", "-f", ref)
-		log("git checkout v0 (skip) ; git checkout -f %s -> %d", ref, ccode)
+		if skipBack = r.Chance(35); skipBack {
+			// … and back with smudging SKIPPED: whatever is already in local storage or a reference store,
+			// every rewritten file stays the pointer
+			cout, ccode = runIn(cl.dir, append(append([]string(nil), cl.env...), skipEnv...), "git", "checkout", "-q", "-f", ref)
+			log("git checkout v0 (skip) ; GIT_LFS_SKIP_SMUDGE=1 git checkout -f %s -> %d", ref, ccode)
+			c.R.Count("cmd.git-checkout-skip-smudge")
+		} else {
+			cout, ccode = cl.git("checkout", "-q", "-f", ref)
+			log("git checkout v0 (skip) ; git checkout -f %s -> %d", ref, ccode)
+		}
 	} else {
 		cout, ccode = cl.runLfs(args...)
 		log("git lfs %s -> %d", strings.Join(args, " "), ccode)
@@ -473,12 +487,17 @@ func c04Scenario(c *Ctx, idx int, r *Rng) (mlines, mimpl, mcase []string) {
 			if ccode != 0 || !changedSinceV0[f.path] {
 				continue // git only rewrites (and smudges) the paths that differ between the two commits
 			}
-			if allowed {
+			if allowed && !skipBack {
 				if !bytes.Equal(after, f.content) {
 					fail("after `git checkout` with the smudge filter a selected LFS file does not have the original bytes", fmt.Sprintf("%s: %d bytes want %d", f.path, len(after), len(f.content)))
 				}
-			} else if !bytes.Equal(after, f.pointer) && !bytes.Equal(after, f.content) {
-				fail("after `git checkout` an excluded LFS file is neither the committed pointer nor the content", f.path)
+			} else if !bytes.Equal(after, f.pointer) {
+				if localBefore[f.oid] {
+					c.R.Count("excluded-or-skipped.object-was-local")
+				}
+				fail("after `git checkout` an excluded or skipped LFS file is not the committed pointer", fmt.Sprintf("%s: %d bytes (object already local or in a reference store: %v, skip-smudge: %v)", f.path, len(after), localBefore[f.oid], skipBack))
+			} else if localBefore[f.oid] {
+				c.R.Count("excluded-or-skipped.object-was-local")
 			}
 		case "pull", "checkout":
 			selected := allowed
@@ -606,6 +625,108 @@ func c04(c *Ctx) {
 		c.R.Count("run." + strings.SplitN(impl[i], ":", 2)[0])
 		if ans[k] != impl[i] {
 			c.R.Add(Finding{Kind: "diff", What: "singleCheckout.Run: the working file after pull/checkout differs from the model's", Case: clip(cases[i], 2500), Impl: clip(impl[i], 300), Model: clip(ans[k], 300) + " <= " + clip(lines[i], 200), Broken: "corr.C04.run"})
+		}
+	}
+	c04CheckoutTo(c, r.Fork())
+}
+
+// c04CheckoutTo: `git lfs checkout --to <file> --ours|--theirs|--base <path>` during a conflicted merge —
+// smudging into a NAMED file over whatever already sits there {no file, the same bytes, other bytes of the
+// same length, shorter, longer}.
+func c04CheckoutTo(c *Ctx, r *Rng) { smudgeToFileCampaign(c, r, "C04") }
+
+func smudgeToFileCampaign(c *Ctx, r *Rng, prop string) {
+	n := c.N(16, 300)
+	var mlines, mimpl, mcase []string
+	for i := 0; i < n; i++ {
+		base := filepath.Join(c.Work, fmt.Sprintf("%s-to-%d", prop, i))
+		w, err := newScenRepo(c, filepath.Join(base, "w"), nil)
+		if err != nil {
+			os.RemoveAll(base)
+			continue
+		}
+		for _, e := range w.env {
+			if strings.HasPrefix(e, "GIT_CONFIG_GLOBAL=") {
+				g := strings.TrimPrefix(e, "GIT_CONFIG_GLOBAL=")
+				for k, v := range map[string]string{"filter.lfs.clean": "git-lfs clean -- %f", "filter.lfs.smudge": "git-lfs smudge -- %f", "filter.lfs.process": "git-lfs filter-process", "filter.lfs.required": "true"} {
+					runIn(base, w.env, "git", "config", "--file", g, k, v)
+				}
+			}
+		}
+		sz := Pick(r, []int{128, 128, 40, 300, 4096, 4096})
+		var ver [3][]byte // base, ours, theirs
+		for k := range ver {
+			ver[k] = r.Bytes(sz + Pick(r, []int{0, 0, 0, 1, -1}))
+		}
+		w.write(".gitattributes", []byte("*.bin filter=lfs diff=lfs merge=lfs -text\n"))
+		w.write("f.bin", ver[0])
+		w.git("add", "-A")
+		w.git("commit", "-qm", "base")
+		w.git("checkout", "-q", "-b", "theirs")
+		w.write("f.bin", ver[2])
+		w.git("commit", "-qam", "theirs")
+		w.git("checkout", "-q", "master")
+		w.write("f.bin", ver[1])
+		w.git("commit", "-qam", "ours")
+		w.git("merge", "-q", "theirs")
+		if _, err := os.Stat(filepath.Join(w.dir, ".git", "MERGE_HEAD")); err != nil {
+			os.RemoveAll(base)
+			continue // no conflict (equal contents)
+		}
+		for _, side := range []string{"--ours", "--theirs", "--base"} {
+			want := map[string][]byte{"--base": ver[0], "--ours": ver[1], "--theirs": ver[2]}[side]
+			state := Pick(r, []string{"absent", "same", "same-length", "other-version", "shorter", "longer", "pointer"})
+			var old []byte
+			has := true
+			switch state {
+			case "absent":
+				has = false
+			case "same":
+				old = want
+			case "same-length":
+				old = r.Bytes(len(want))
+			case "other-version":
+				old = ver[r.Intn(3)]
+			case "shorter":
+				old = r.Bytes(len(want) / 2)
+			case "longer":
+				old = r.Bytes(len(want) + 1 + r.Intn(300))
+			case "pointer":
+				old = canonicalPointer(sha(want), int64(len(want)))
+			}
+			out := filepath.Join(w.dir, "out"+side+".bin")
+			os.Remove(out)
+			if has {
+				os.WriteFile(out, old, 0o644)
+			}
+			res, code := w.runLfs("checkout", "--to", filepath.Base(out), side, "f.bin")
+			got, gerr := os.ReadFile(out)
+			enc := fmt.Sprintf("%s checkout-to seed=%d idx=%d side=%s size=%d out-file=%s(%d bytes)", prop, c.Seed, i, side, len(want), state, len(old))
+			c.R.Eval(enc, has)
+			c.R.Count("checkout-to." + state)
+			if code != 0 || gerr != nil || !bytes.Equal(got, want) {
+				c.R.Add(Finding{Kind: "oracle", What: "`git lfs checkout --to` did not leave the requested version's bytes in the named file", Case: enc,
+					Impl: fmt.Sprintf("exit %d; file has %d bytes, want %d; %s", code, len(got), len(want), clip(res, 200))})
+			}
+			st := "a0"
+			if has {
+				st = "f" + hexOrDash(string(old))
+			}
+			mlines = append(mlines, fmt.Sprintf("C04 tofile %s %d %s %s", hx([]byte(sha(want))), len(want), hx(want), st))
+			mimpl = append(mimpl, hexOrDash(string(got)))
+			mcase = append(mcase, enc)
+		}
+		os.RemoveAll(base)
+		os.Remove(base + ".gitconfig")
+	}
+	ans, err := c.Or.Ask(mlines)
+	if err != nil {
+		c.R.Add(Finding{Kind: "diff", What: "oracle process failed: " + err.Error(), Broken: "corr." + prop + ".tofile"})
+		return
+	}
+	for i := range mlines {
+		if ans[i] != mimpl[i] {
+			c.R.Add(Finding{Kind: "diff", What: "SmudgeToFile over an existing file: model and implementation disagree", Case: mcase[i], Impl: clip(mimpl[i], 200), Model: clip(ans[i], 200), Broken: "corr." + prop + ".tofile"})
 		}
 	}
 }
